@@ -1,12 +1,17 @@
 #!/bin/sh
 # tools/try_patch.sh <patch.diff> <prop> [<prop>...]
-# Applies the patch to a scratch copy of /repo's working tree (under
-# /var/tmp, removed afterwards) and runs the given checks against it.
+# Applies the patch (3-way, so patches made against the pinned commit still
+# apply after the fix: commits) to a scratch clone of /repo under /var/tmp
+# (removed afterwards) and runs the given checks against it via VERIF_REPO.
 patch=$1; shift
 d=$(mktemp -d /var/tmp/verif-try.XXXXXX)
-mkdir -p "$d/repo"
-(cd /repo && git ls-files -z | xargs -0 cp --parents -t "$d/repo") 
-if ! (cd "$d/repo" && git init -q . 2>/dev/null; git -C "$d/repo" apply --whitespace=nowarn "$patch" 2>&1 || patch -p1 -s -d "$d/repo" < "$patch"); then echo "PATCH-DOES-NOT-APPLY $patch"; rm -rf "$d"; exit 3; fi
+git clone -q /repo "$d/repo" 2>/dev/null
+# carry over uncommitted changes of /repo's working tree, if any
+(cd /repo && git diff HEAD) > "$d/wt.diff"
+[ -s "$d/wt.diff" ] && git -C "$d/repo" apply "$d/wt.diff"
+if ! git -C "$d/repo" apply --3way --whitespace=nowarn "$patch" >"$d/apply.log" 2>&1; then
+  echo "PATCH-DOES-NOT-APPLY $patch"; grep -m3 -i "conflict\|error" "$d/apply.log"; rm -rf "$d"; exit 3; fi
+if grep -rq '^<<<<<<<' "$d/repo/ddsmt" "$d/repo/bin" 2>/dev/null; then echo "PATCH-CONFLICT $patch"; rm -rf "$d"; exit 3; fi
 rc=0
 for p in "$@"; do
   VERIF_REPO="$d/repo" VERIF_EVIDENCE_DIR="$d/ev" /verif/check "$p" > "$d/out.$p" 2>&1; r=$?
